@@ -1620,34 +1620,43 @@ func checkLimitUses(c *Ctx, p *Prog, pkg, typ, rule string) {
 	if f == nil {
 		return
 	}
-	var limit *ssa.Parameter
-	for _, prm := range f.Params {
-		if prm.Name() == "limit" {
-			limit = prm
-		}
-	}
+	limit := intParam(f)
 	if limit == nil {
-		c.Unresolved(rule, shortPkg(pkg)+"."+typ+".Read/limit-parameter", "no parameter named limit")
+		c.Unresolved(rule, shortPkg(pkg)+"."+typ+".Read/limit-parameter", "Read has no single int parameter")
 		return
 	}
+	// the limit, also where it is handed on to helpers of the package
+	web := paramWeb(p, limit)
 	ok := true
-	for _, ref := range *limit.Referrers() {
-		switch x := ref.(type) {
-		case *ssa.BinOp:
-			switch x.Op {
-			case token.GTR, token.LSS, token.GEQ, token.LEQ, token.EQL, token.NEQ:
-			default:
-				ok = false
-			}
-		case *ssa.MakeInterface, *ssa.DebugRef:
-			// bound to a query / logged: must sit under limit > 0 for the query case — checked by limit semantics
-		case *ssa.MakeSlice, *ssa.Slice, *ssa.Convert:
-			ok = false
-			c.Violate(rule, shortPkg(pkg)+"."+typ+".Read/limit-only-compared", p.Pos(ref.Pos()), "the limit is used as an allocation size or slice bound: a negative limit (documented as 'no limit') or a very large one makes Read panic", nil)
-		case *ssa.Call:
-			if _, isB := x.Common().Value.(*ssa.Builtin); isB {
-				ok = false
-				c.Violate(rule, shortPkg(pkg)+"."+typ+".Read/limit-only-compared", p.Pos(ref.Pos()), "the limit is passed to a builtin (size/bound)", nil)
+	for _, g := range reachFuncs(p, f, pkg) {
+		for _, b := range g.Blocks {
+			for _, in := range b.Instrs {
+				uses := false
+				for _, op := range in.Operands(nil) {
+					if op != nil && *op != nil && inWeb(web, *op) {
+						uses = true
+					}
+				}
+				if !uses {
+					continue
+				}
+				switch x := in.(type) {
+				case *ssa.BinOp:
+					switch x.Op {
+					case token.GTR, token.LSS, token.GEQ, token.LEQ, token.EQL, token.NEQ:
+					default:
+						ok = false
+						c.Violate(rule, shortPkg(pkg)+"."+typ+".Read/limit-only-compared", p.Pos(in.Pos()), "the limit takes part in arithmetic ("+x.Op.String()+"): a negative limit (documented as 'no limit') gives a nonsensical bound", nil)
+					}
+				case *ssa.MakeSlice, *ssa.Slice, *ssa.Convert, *ssa.IndexAddr, *ssa.Index:
+					ok = false
+					c.Violate(rule, shortPkg(pkg)+"."+typ+".Read/limit-only-compared", p.Pos(in.Pos()), "the limit is used as an allocation size, slice bound or index: a negative limit (documented as 'no limit') or a very large one makes Read panic", nil)
+				case *ssa.Call:
+					if _, isB := x.Common().Value.(*ssa.Builtin); isB {
+						ok = false
+						c.Violate(rule, shortPkg(pkg)+"."+typ+".Read/limit-only-compared", p.Pos(in.Pos()), "the limit is passed to a builtin (size/bound)", nil)
+					}
+				}
 			}
 		}
 	}
